@@ -130,7 +130,8 @@ class C18(Prop):
         "or raise; they may assign the public attributes of the object that is running them (modelled: the attributes "
         "are part of the adversary-visible state), but they do not call back into the loop that is invoking them "
         "(re-entrant tools: search-only line retools)",
-        "tool_calls returned by the provider is a finite sequence; mitochondria.export_tool_schemas() returns",
+        "tool_calls returned by the provider is None or a finite list (a truthy-but-empty or unbounded iterable is not "
+        "modelled)",
         "worker outputs are ASCII strings in the correspondence (str.upper is CPython's); md5 prefixes are taken as "
         "injective on the outputs explored",
         "the mitochondria seen by transcribe_with_tools is the real Mitochondria around a scripted tool function for "
@@ -327,7 +328,7 @@ class C18(Prop):
         cs = rng.choice(["r", "r", "r", "x", "u", "q", "t", "e", "ur", "xr", "qqr"])
         # hasSchemas: 1 / 0 stub mitochondria with / without schemas; 2 / 3 the REAL Mitochondria with / without a tool
         r = rng.random()
-        hs = "2" if r < 0.35 else "3" if r < 0.4 else "0" if r < 0.47 else "1"
+        hs = "2" if r < 0.35 else "3" if r < 0.4 else "0" if r < 0.47 else "4" if r < 0.5 else "1"
         return (f"{op} {mi if named else 'd'} {show_bool(rng.random() < 0.85)} {hs} "
                 f"{show_bool(rng.random() < 0.9)} {ps} {ts} {cs}")
 
@@ -896,6 +897,8 @@ class C18(Prop):
 
         class Mito:
             def export_tool_schemas(self):
+                if t[3] == "4":            # the mitochondria's own callback raises before any provider call
+                    raise boom("x", "schemas")
                 return [object()] if hsch else []
 
             def execute_tool_call(self, call):
